@@ -273,10 +273,11 @@ Proof.
   cbn [loads]. rewrite load_dec_full by assumption. cbn [ld_final]. reflexivity.
 Qed.
 
-Lemma loads_of_dec_last : forall c B t, length B = (16 * t)%nat -> (t <= c)%nat ->
+Lemma loads_of_dec_last : forall c B t, length B = (16 * t)%nat -> (1 <= t)%nat -> (t <= c)%nat ->
   loads_of c false B = [{| ld_data := B; ld_total := t; ld_final := true |}].
 Proof.
-  intros c B t HB Ht. unfold loads_of. cbn [loads]. rewrite (load_dec_last c B t) by assumption. reflexivity.
+  intros c B t HB Ht1 Ht. unfold loads_of. cbn [loads]. rewrite (load_dec_last c B t) by assumption.
+  cbn [ld_final ld_total]. destruct t as [|t']; [lia|]. reflexivity.
 Qed.
 
 (* export *)
@@ -297,7 +298,8 @@ Qed.
 Lemma export_dec_final : forall c d P,
   export c false {| ld_data := d; ld_total := S (length P / 16); ld_final := true |} (padded P) = Ok P.
 Proof.
-  intros c d P. unfold export. cbn [ld_final ld_total].
+  intros c d P. unfold export. cbn [ld_final ld_total]. cbv zeta.
+  change (S (length P / 16) =? 0)%nat with false. cbv iota.
   pose proof (padlen_range (length P)) as Hp.
   assert (Hn : nth (16 * S (length P / 16) - 1) (padded P) 0 = N.of_nat (padlen (length P))).
   { unfold padded. rewrite app_nth2 by (unfold padlen in *; lia).
@@ -364,7 +366,7 @@ Proof.
     set (r := run E D ke (nth (j mod T) ivs []) (blocks16_of (padded P))) in *.
     exists (concat (snd r)).
     rewrite loads_of_enc_last by exact HP. fold t.
-    rewrite (loads_of_dec_last c (concat (snd r)) t C3 Ht).
+    rewrite (loads_of_dec_last c (concat (snd r)) t C3 (le_n_S _ _ (Nat.le_0_l _)) Ht).
     split; [|split; [|split; [rewrite C3; unfold t; lia|exact C2]]].
     - apply (pipe_chunks_single_ok E D ke T c true ivs j _ (fst r) (snd r)).
       + reflexivity.
@@ -526,13 +528,12 @@ Proof.
 Qed.
 
 Lemma dec_ok : forall c hbuf T F key kd,
-  verify hbuf F key = Ok 0 -> (text_mark T <= length F)%nat -> create false (nth 8 F 0) = Some kd ->
+  verify hbuf F key = Ok 0 -> create false (nth 8 F 0) = Some kd ->
   dec c hbuf T F key =
   pipe_seq (aes_enc_with (genall key)) (aes_dec_with (genall key)) kd T c false
            (firstn 16 (skipn 48 F)) (skipn (text_mark T) F).
 Proof.
-  intros c hbuf T F key kd Hv Hl Hk. unfold dec. rewrite Hv.
-  destruct (Nat.ltb_spec (length F) (text_mark T)) as [H|_]; [lia|].
+  intros c hbuf T F key kd Hv Hk. unfold dec. rewrite Hv.
   rewrite Hk. reflexivity.
 Qed.
 
@@ -615,7 +616,7 @@ Proof.
     - rewrite HF. rewrite skipn_app_exact by exact HA. apply firstn_app_exact. reflexivity.
     - lia. }
   exists F. split; [exact Henc|]. split.
-  - rewrite (dec_ok c hbuf T F key kd Hver); [| rewrite text_mark_eq; lia | rewrite Hn8; exact Hkd].
+  - rewrite (dec_ok c hbuf T F key kd Hver); [| rewrite Hn8; exact Hkd].
     rewrite Hsk48. rewrite firstn_app_ge by lia.
     assert (Hbody : skipn (text_mark T) F = body).
     { rewrite text_mark_eq, HF. rewrite !app_assoc.
